@@ -11,10 +11,10 @@ namespace bo = bspline::operators;
 struct QuadC {
   GridC g;
   SplineC m1, m2;
-  i64 o1 = 0, o2 = 0, n = 1, type = 2, fden = 1;
+  i64 o1 = 0, o2 = 0, n = 1, type = 2, fden = 1, distinct = 0;  // distinct: m2 lives on an equal grid in a separately built object
   std::vector<i64> f;  // weight polynomial coefficients f_k / fden, degree = f.size()-1
   template <class A>
-  void io(A &x) { x("g", g); x("m1", m1); x("m2", m2); x("o1", o1); x("o2", o2); x("n", n); x("type", type); x("fden", fden); x("f", f); }
+  void io(A &x) { x("g", g); x("m1", m1); x("m2", m2); x("o1", o1); x("o2", o2); x("n", n); x("type", type); x("fden", fden); x("f", f); x("distinct", distinct); }
 };
 
 // independent n-point Gauss-Legendre rule on [-1,1]: Newton iteration on the Legendre recurrence (long double)
@@ -44,7 +44,9 @@ template <class T, size_t o1, size_t o2, size_t n>
 static void quad_T(const QuadC &c, vf::Obs &o) {
   auto grid = make_grid<T>(c.g);
   const auto m1 = make_spline<T, o1>(grid, c.m1);
-  const auto m2 = make_spline<T, o2>(grid, c.m2);
+  auto grid2 = make_grid<T>(c.g);  // same points, separately constructed storage
+  const auto m2 = make_spline<T, o2>(c.distinct ? grid2 : grid, c.m2);
+  if (c.distinct) o.cls("second-operand:equal-grid-in-distinct-object");
   std::vector<R> pts = c.g.points();
   i64 fden = c.fden < 1 ? 1 : c.fden;
   std::vector<T> fT;
@@ -158,6 +160,7 @@ int main(int argc, char **argv) {
     gen_pair(c.g.n(), gen_placement(), c.m1.s, c.m1.e, c.m2.s, c.m2.e);
     CoefOpt co; co.dyadic = true; co.max_num = 8;
     gen_coeffs(c.m1, 3, co); gen_coeffs(c.m2, 3, co);
+    c.distinct = chance(40);
     int d = (int)pick(0, 3);
     c.fden = one_of<i64>({1, 2, 4});
     for (int k = 0; k <= d; k++) c.f.push_back(k == d ? (chance(50) ? pick(1, 6) : -pick(1, 6)) : pick(-6, 6));
